@@ -61,6 +61,11 @@ func (c12) Generate(seed uint64, tier string, index int) any {
 		sc.Sources = []SrcArg{{Path: "", Slash: true}}
 		sc.Dst = fstree.Tree{}
 		touch := []string{"none", "size", "mtime", "content", "content"}[g.R.Intn(5)]
+		if g.R.Intn(4) == 0 {
+			// the first sync starts from what a killed earlier sync left; after it
+			// the repeat must still be a no-op
+			sc.Kill = &KillPoint{PerMille: g.R.Intn(1001)}
+		}
 		return &C12Scenario{Mode: "repeat", Opts: opts, Sync: &sc, Touch: touch, Tr: sc.Tr}
 	}
 	sc := &C12Scenario{Mode: "table", Opts: c12OptCombos[index%len(c12OptCombos)]}
@@ -294,6 +299,13 @@ func c12Repeat(t *testing.T, sc *C12Scenario, job *Job, res *Result) {
 	if err := prepare(&run, lay); err != nil {
 		res.Invalid = err.Error()
 		return
+	}
+	if run.Kill != nil {
+		run.Opts = sc.Opts
+		if !killedState(t, &run, lay, res) {
+			return
+		}
+		run.Kill = nil
 	}
 	lo := listOptsFor(o)
 	doRun := func(label string) (*refproto.ParsedReceiver, *refproto.ParsedSender, bool) {
